@@ -147,6 +147,16 @@ def directed(rng, kind, **o):
                              dx=rng.choice([128.0, 256.0]), dy=rng.choice([128.0, 256.0]), varmetric=rng.random() < 0.4, **o)
     if kind == "deaths":     # many scripted kills and freezes, dense and sparse, particle variables
         return base_scenario(rng, nkill=rng.randrange(2, 6), nfreeze=rng.choice([0, 1, 2]), nsteps=rng.randrange(3, 9), ntimes=rng.choice([2, 3]), pvars=True, **o)
+    if kind == "scale":      # many particles, many steps, many files: block sizes, counter widths, integer widths
+        nsteps = rng.randrange(24, 41)
+        sc = base_scenario(rng, nsteps=nsteps, ntimes=3, nkill=3, nfreeze=0, ops=rng.choice([2, 3]), numrec=rng.choice([1, 2]), pvars=True,
+                           fm=uniform_fm(rng, strong=False), dt=32, nland=rng.choice([0, 2]), **o)
+        for r in sc["rows"]:
+            r["mult"] = rng.choice([130, 260, 400])
+        npart = sum(r["mult"] for r in sc["rows"])
+        sc["kill"] = sorted([rng.randrange(0, nsteps), rng.randrange(0, npart)] for _ in range(12))
+        sc["cls"] = dict(sc["cls"], scale=True)
+        return sc
     raise ValueError(kind)
 
 
